@@ -2,6 +2,7 @@
   C07 — liquidity / amount math.  Theorems about Demeter.LiqMath (exact context = rational semantics).
 -/
 import Demeter.LiqMath
+import Proofs.Lemmas.Exact
 import Mathlib.Tactic.Linarith
 import Mathlib.Tactic.FieldSimp
 import Mathlib.Tactic.Ring
@@ -9,8 +10,6 @@ import Mathlib.Tactic.Positivity
 import Mathlib.Algebra.Order.Field.Rat
 import Mathlib.Data.Rat.Cast.Order
 namespace Demeter
-
-def NumCtx.exact : NumCtx := { rnd := id, dsqrt := dsqrt35 }
 
 theorem sortPair_lt {a b : Nat} (h : a < b) : sortPair a b = (a, b) := by
   unfold sortPair; rw [if_neg (by omega)]
